@@ -206,7 +206,7 @@ structure HInv (h : RHandle) : Prop where
 theorem gsm_open_hinv (c : Cfg) (file : List Byte) (dlen : Nat) (hdr : Option Nat) : HInv (openRead c file dlen hdr) := by
   refine ⟨reader_wf c file dlen, rfl, (init_inv _).1, (init_inv _).2.symm, ?_⟩
   show framesAtOpen c dlen hdr ≤ c.spb * blocksOf c dlen
-  unfold framesAtOpen
+  unfold framesAtOpen framesWith blocksOf
   cases hdr with
   | none => exact Nat.le_refl _
   | some x => simp only; split <;> omega
